@@ -16,9 +16,9 @@ SUMMARY = {
  "C09": ("11 `token` functions, 20 `scanner` functions incl. `Scan` (window invariant, every index/slice in bounds); lemma Pos/Offset inverse; `literal.appendEscaped` (raw byte escape only for one invalid byte), `appendEscapedRune` (byte escape only for ASCII), `singleLineHashCount` (no early close, no escape, no triple quote); the parser's panic protocol (`errf`, `incNestLevel`, `closeList`, `closeNode` panic only with `panicking` set; `checkExpr`'s panic unreachable via `unparen`)", "`scanString`, `scanEscape`, `errf`, `AddLine`, utf8"),
  "C14": ("all of `internal/mod/semver` (11 functions) incl. recursive prerelease spec; 8 order lemmas; `mvs.Graph.Selected`, `Graph.Require` (monotone, sufficient, minimal for any total preorder), worker closure of `buildList` (every requirement is queued), `par.Work.Add`/`init` under a monitor", "bytewise order axioms, `vcmp` total preorder, queue ownership"),
  "C15": ("`fileNameOK`, `checkElem`, `checkPath`, `CheckFilePath`, `CheckedFiles.Err`, `CheckZip` (+closure; names and the size accounting), `Unzip` (effects), the `WalkDir` callback of `listFilesInDir` (SkipDir only for directories, every entry accounted for)", "os/io/zip/path/strings, WalkDir"),
- "C16": ("`Cache.downloadDir`, `Cache.Fetch` (ghost dirState/partial/held, CI after every effect), `downloadZip1` + its deferred cleanup (ghost zipState/tmpState: rename only of a fully written, closed temp file; stale temp files removed only if owned)", "all file-system effect contracts, glob axiom"),
+ "C16": ("`Cache.downloadDir`, `Cache.Fetch` (ghost dirState/partial/held, CI after every effect), `downloadZip1` + its deferred cleanup (ghost zipState/tmpState: rename only of a fully written, closed temp file; stale temp files removed only if owned), `writeDiskCache` (same protocol for module files)", "all file-system effect contracts, glob axiom"),
  "C18": ("`Task.done`, `Task.isReady`, `Controller.markReady`, `Controller.runLoop` (go effect), `tagChildren`, `getTask` (node-to-task map covers a task's children in every state)", "frame contracts, channel contract, `initTasks`, user callbacks"),
- "C19": ("`getKey`, `IndexToString`, `getNextUniqueID`, `LoadInstance`, `getNodeFromInstance`, `AddInst` (two monitors), `Vertex.MatchAndInsert` (no write through a pre-existing Environment)", "mutex exclusion, frames of `Accept`, `matchPattern`, `insertConjunct`"),
+ "C19": ("`getKey`, `IndexToString`, `getNextUniqueID`, `LoadInstance`, `getNodeFromInstance`, `AddInst` (two monitors), `Vertex.MatchAndInsert` (no write through a pre-existing Environment), `adt.New` (private context, fresh generation id)", "mutex exclusion, frames of `Accept`, `matchPattern`, `insertConjunct`"),
  "C20": ("`subsumer.bound`, `isBottom`, `BoundValue.Kind`; trim's `comprehensionDependsOn` and `isAncestorOf` (depth ≤ 3 of the parent chains)", "`BinOpBool`, `IsConcrete`, `slices.Contains`"),
 }
 
